@@ -258,6 +258,10 @@ func (r *rewriter) file(f *ast.File, name string) {
 			"context":     {"context", "verif/vrt/vcontext"},
 			"sync":        {"sync", "verif/vrt/vsync"},
 			"sync/atomic": {"atomic", "verif/vrt/vatomic"},
+			"time":        {"time", "verif/vrt/vtime"},
+		}
+		if p == "time" && r.eager {
+			delete(repl, "time") // the driver keeps the real clock (it only uses it for I/O deadlines that are off)
 		}
 		if rp, ok := repl[p]; ok {
 			if imp.Name == nil {
